@@ -68,8 +68,8 @@ TWO_WHEELER_STATION_TYPES: frozenset = frozenset({2, 3, 4})
 _VEHICLE_ROLE_NAMES = [
     "default", "publicTransport", "specialTransport", "dangerousGoods",
     "roadWork", "rescue", "emergency", "safetyCar",
-    "agricultural", "commercial", "military", "roadOperator",
-    "taxi", "reserved1", "reserved2", "reserved3",
+    "agriculture", "commercial", "military", "roadOperator",
+    "taxi", "uvar", "rfu1", "rfu2",
 ]
 
 
